@@ -461,11 +461,18 @@ pub fn run_bin(r: BinRun) -> BinOutcome {
         let _ = std::io::Read::read_to_end(&mut so, &mut b);
         b
     });
+    let errbuf = std::sync::Arc::new(std::sync::Mutex::new(Vec::<u8>::new()));
+    let errbuf2 = errbuf.clone();
     let t2 = std::thread::spawn(move || {
-        let mut b = Vec::new();
-        let _ = std::io::Read::read_to_end(&mut se, &mut b);
-        b
+        let mut chunk = [0u8; 4096];
+        loop {
+            match std::io::Read::read(&mut se, &mut chunk) {
+                Ok(0) | Err(_) => break,
+                Ok(n) => errbuf2.lock().unwrap().extend_from_slice(&chunk[..n]),
+            }
+        }
     });
+    let mut panic_seen_at: Option<Instant> = None;
     let mut cpu_ticks = 0u64;
     let mut exit = None;
     let mut sleep_us = 200u64;
@@ -486,17 +493,29 @@ pub fn run_bin(r: BinRun) -> BinOutcome {
         if let Some(t) = proc_cpu_ticks(target_pid(pid, r.strace.is_some())) {
             cpu_ticks = cpu_ticks.max(t);
         }
-        if start.elapsed() > r.wall_limit {
+        if panic_seen_at.is_none() && start.elapsed() > Duration::from_millis(300) {
+            let b = errbuf.lock().unwrap();
+            if b.windows(11).any(|w| w == b"panicked at") {
+                panic_seen_at = Some(Instant::now());
+            }
+        }
+        // after a panic message the process should be gone quickly; if not, diagnose early instead of waiting out the limit
+        let early = panic_seen_at.map(|t| t.elapsed() > Duration::from_millis(1500)).unwrap_or(false);
+        if start.elapsed() > r.wall_limit || early {
             // diagnosis, not verdict
             let tp = target_pid(pid, r.strace.is_some());
             let a = thread_states(tp);
             std::thread::sleep(Duration::from_millis(500));
             let b = thread_states(tp);
-            let progressed = a
-                .iter()
-                .zip(b.iter())
-                .any(|(x, y)| x.0 == y.0 && y.2 > x.2);
+            // a logger / timer thread may wake up for a tick; "busy" needs substantial CPU use (>= 5 ticks in 0.5 s)
+            let delta: u64 = a.iter().zip(b.iter()).filter(|(x, y)| x.0 == y.0).map(|(x, y)| y.2.saturating_sub(x.2)).sum();
+            let progressed = delta >= 5;
             let all_sleeping = !b.is_empty() && b.iter().all(|t| t.1.starts_with('S'));
+            if early && start.elapsed() <= r.wall_limit && !(all_sleeping && !progressed) {
+                // not (yet) a clear dead-lock: look again later instead of concluding from one sample
+                panic_seen_at = Some(Instant::now());
+                continue;
+            }
             let diag = if all_sleeping && !progressed {
                 // 202 = futex, 271 = ppoll, 7 = poll, 232 = epoll_wait
                 format!(
@@ -521,7 +540,8 @@ pub fn run_bin(r: BinRun) -> BinOutcome {
         }
     }
     let stdout = String::from_utf8_lossy(&t1.join().unwrap_or_default()).into_owned();
-    let stderr = String::from_utf8_lossy(&t2.join().unwrap_or_default()).into_owned();
+    let _ = t2.join();
+    let stderr = String::from_utf8_lossy(&errbuf.lock().unwrap()).into_owned();
     BinOutcome {
         exit: exit.unwrap_or(Exit::Signal(-1)),
         stdout,
